@@ -16,8 +16,9 @@ go build ./... >/dev/null 2>&1 || { echo "$m BUILD-FAILED"; git checkout -q -- .
 suite=$(go test -vet=off -count=1 ./... 2>&1 | grep -c '^ok\|no test files')
 suitefail=$(go test -vet=off -count=1 ./... 2>&1 | grep -c '^FAIL\|^---')
 cp $demo $sub/zz_seed_demo_test.go
-with=$(timeout 300 go test -vet=off -count=1 -run "^($tests)\$" ./$sub 2>&1 | tail -1)
+race=${SEED_RACE:+-race}
+with=$(timeout 300 go test $race -vet=off -count=1 -run "^($tests)\$" ./$sub 2>&1 | tail -1)
 git checkout -q -- .
-without=$(timeout 300 go test -vet=off -count=1 -run "^($tests)\$" ./$sub 2>&1 | tail -1)
+without=$(timeout 300 go test $race -vet=off -count=1 -run "^($tests)\$" ./$sub 2>&1 | tail -1)
 rm -f $sub/zz_seed_demo_test.go
 echo "$m suite_ok_pkgs=$suite suite_fail_lines=$suitefail | with: $with | without: $without"
